@@ -1,10 +1,113 @@
-import Martian.Util
-/-! STUB — property C14 is not built yet. -/
+import Martian.Model.HttpSpec
+/-! Line-protocol driver of the C14 model (see go/internal/c14 for the op grammar). -/
 namespace Martian.Drv.C14
-open Martian
+open Martian Martian.Go Martian.Go.Header Martian.HttpSpec
 
-abbrev St := Unit
-def init : St := ()
-def step (s : St) (_toks : List String) : St × String := (s, "bad-op")
+/-- header token: `-` (empty) or `key=v,v;key=~;…` (hex; `~` = key present with no values). -/
+def parseEntry (s : String) : Option (Bytes × List Bytes) :=
+  match s.splitOn "=" with
+  | [k, vs] => do
+    let kb ← unhex k
+    if vs = "~" then pure (kb, []) else
+    let vals ← (vs.splitOn ",").mapM unhex
+    pure (kb, vals)
+  | _ => none
+
+def parseHeader (s : String) : Option Header :=
+  if s = "-" then some [] else (s.splitOn ";").mapM parseEntry
+
+def bytesLe : Bytes → Bytes → Bool
+  | [], _ => true
+  | _ :: _, [] => false
+  | a :: r, b :: t => if a < b then true else if b < a then false else bytesLe r t
+
+def showHeader (h : Header) : String :=
+  if h.isEmpty then "-" else
+  let sorted := h.mergeSort (fun a b => bytesLe a.1 b.1)
+  ";".intercalate (sorted.map fun e =>
+    hex e.1 ++ "=" ++ (if e.2.isEmpty then "~" else ",".intercalate (e.2.map hex)))
+
+def showErr : Err → String
+  | .cl => "cl" | .te => "te" | .loop => "loop" | .unknown => "unknown"
+
+def showErrs (es : List Err) : String := if es.isEmpty then "ok" else "+".intercalate (es.map showErr)
+
+def headerAscii (h : Header) : Bool := h.all fun e => isAscii e.1 && e.2.all isAscii
+
+def parseEnv (ma mi name bd sch host url remote : String) : Option Env := do
+  let ma ← ma.toNat?
+  let mi ← mi.toNat?
+  pure { major := ma, minor := mi, name := ← unhex name, boundary := ← unhex bd, scheme := ← unhex sch,
+         host := ← unhex host, url := ← unhex url, remote := ← unhex remote }
+
+def dummyEnv : Env := { major := 1, minor := 1, name := [], boundary := [], scheme := [], host := [], url := [], remote := [] }
+
+def showBytesList (l : List Bytes) : String := if l.isEmpty then "~" else ",".intercalate (l.map hex)
+
+/-- State: the `via.LoopDetection` context bit left by the last `stackreq` of the case
+(`none`: that request was outside the model's domain, so the bit is unknown). -/
+abbrev St := Option Bool
+def init : St := some false
+
+def guarded (h : Header) (extra : List Bytes) (k : Unit → St × String) (s : St) : St × String :=
+  if headerAscii h && extra.all isAscii then k () else (s, "out-of-model")
+
+def step (s : St) (toks : List String) : St × String :=
+  match toks with
+  | ["hbh", h] =>
+    match parseHeader h with
+    | some h => guarded h [] (fun _ => (s, showHeader (removeHopByHop h))) s
+    | none => (s, "bad-op")
+  | ["via", ma, mi, name, bd, h] =>
+    match parseEnv ma mi name bd "-" "-" "-" "-", parseHeader h with
+    | some env, some h => guarded h [env.name, env.boundary] (fun _ =>
+        let (r, e) := viaReq env { hdr := h }
+        (s, s!"{showErrs e.toList} skip={r.skip} key={r.loopKey} {showHeader r.hdr}")) s
+    | _, _ => (s, "bad-op")
+  | ["fwd", sch, host, url, remote, h] =>
+    match parseEnv "1" "1" "-" "-" sch host url remote, parseHeader h with
+    | some env, some h => guarded h [env.scheme, env.host, env.url, env.remote] (fun _ =>
+        (s, showHeader (fwdHeader env h))) s
+    | _, _ => (s, "bad-op")
+  | ["framing", h] =>
+    match parseHeader h with
+    | some h => guarded h [] (fun _ =>
+        let (h', e) := framingHeader h
+        (s, s!"{showErrs e.toList} {showHeader h'}")) s
+    | none => (s, "bad-op")
+  | ["stackreq", ma, mi, name, bd, sch, host, url, remote, h] =>
+    match parseEnv ma mi name bd sch host url remote, parseHeader h with
+    | some env, some h => guarded h [env.name, env.boundary, env.scheme, env.host, env.url, env.remote] (fun _ =>
+        let (r, es) := stackReq env h
+        (some r.loopKey, s!"{showErrs es} skip={r.skip} {showHeader r.hdr}")) none
+    | _, _ => (s, "bad-op")
+  | ["stackres", st, h] =>
+    match st.toNat?, parseHeader h with
+    | some st, some h =>
+      match s with
+      | none => (s, "out-of-model")
+      | some key => guarded h [] (fun _ =>
+        let (r, es) := stackRes key { hdr := h, status := st }
+        (s, s!"{showErrs es} {r.status} {showHeader r.hdr}")) s
+    | _, _ => (s, "bad-op")
+  -- stdlib models
+  | ["hdr.canon", k] => (s, match unhex k with | some k => hex (canonKey k) | none => "bad-op")
+  | ["net.shp", a] => (s, match unhex a with
+      | some a => (match splitHostPort a with | some h => "some " ++ hex h | none => "none")
+      | none => "bad-op")
+  | ["re.field2", a] => (s, match unhex a with
+      | some a => if isAscii a then (match field2 a with | some h => "some " ++ hex h | none => "none") else "out-of-model"
+      | none => "bad-op")
+  | ["hdr.get", h, k] => (s, match parseHeader h, unhex k with
+      | some h, some k => hex (get h k) | _, _ => "bad-op")
+  | ["hdr.values", h, k] => (s, match parseHeader h, unhex k with
+      | some h, some k => showBytesList (values h k) | _, _ => "bad-op")
+  | ["hdr.set", h, k, v] => (s, match parseHeader h, unhex k, unhex v with
+      | some h, some k, some v => showHeader (set h k v) | _, _, _ => "bad-op")
+  | ["hdr.add", h, k, v] => (s, match parseHeader h, unhex k, unhex v with
+      | some h, some k, some v => showHeader (add h k v) | _, _, _ => "bad-op")
+  | ["hdr.del", h, k] => (s, match parseHeader h, unhex k with
+      | some h, some k => showHeader (del h k) | _, _ => "bad-op")
+  | _ => (s, "bad-op")
 
 end Martian.Drv.C14
